@@ -38,7 +38,8 @@ def chp_harness(H, with_heat=False):
     tg = Obj('Timegrid', restricted=R)
     self_obj = Obj('CHPAsset', name=H.str('asset_name'), timegrid=tg, on_idx=on, start_idx=st, shutdown_idx=sd, heat_idx=ht, n=n,
                    idx_nodes={'power': 0, 'heat': 1 if with_heat else None, 'fuel': None})
-    return dict(self_obj=self_obj, op=op, T=T, N=N, m0=m0, on=on, st=st, sd=sd, ht=ht, n=n, af=af, ctf=ctf, b0=b0, l0=l0, u0=u0)
+    # the helpers write bounds in place: the specification refers to pristine copies of the vectors as they were at entry
+    return dict(self_obj=self_obj, op=op, T=T, N=N, m0=m0, on=on, st=st, sd=sd, ht=ht, n=n, af=af, ctf=ctf, b0=b0.copy(), l0=l0.copy(), u0=u0.copy())
 
 
 def ind(c, col):
@@ -185,10 +186,12 @@ class MinRuntime(Contract):
         yield ('C06.minrun.rows', z3.ForAll([t, i, c], z3.Implies(z3.And(dom, cr), z3.And(
             lift(item.nr) == 1, lift(item.f(0, c)) == ind(c, on + t) - ind(c, st + t - i),
             lift(fb[0].item.f(0)) == 0, lift(S.char_at(fc[0].item, 0)) == sym.strlit('L')))))
-        # already running for tar < min_runtime steps: the first min_runtime - tar steps are on
+        # already running for tar < min_runtime steps: the first min_runtime - tar steps are on -- as far as the horizon reaches: only
+        # ON variables are forced (a remaining runtime beyond the horizon must not reach into the start / shutdown flags, which the
+        # statement ties to off-to-on transitions)
         forced = z3.And(tar > 0, mr - tar > 0)
         yield ('C06.minrun.initial', z3.ForAll([c], z3.Implies(cr, lift(l.f(c)) == z3.If(
-            z3.And(forced, c >= on, c < on + mr - tar), z3.RealVal(1), ctx['l0'].f(c)))))
+            z3.And(forced, c >= on, c < on + mr - tar, c < on + T), z3.RealVal(1), ctx['l0'].f(c)))))
         yield ('C06.minrun.upper_untouched', z3.ForAll([c], z3.Implies(cr, lift(u.f(c)) == ctx['u0'].f(c))))
 
 
@@ -241,8 +244,13 @@ class MinDowntime(Contract):
             lift(item.f(0, c)) == ind(c, on + t) - ind(c, on + t - i) + z3.If(t > i, ind(c, on + t - i - 1), z3.RealVal(0)),
             lift(fb[0].item.f(0)) == rhs, lift(S.char_at(fc[0].item, 0)) == sym.strlit('U')))))
         forced = z3.And(tao > 0, md - tao > 0)
-        yield ('C06.mindown.initial', z3.ForAll([c], z3.Implies(cr, lift(u.f(c)) == z3.If(
-            z3.And(forced, c >= on, c < on + md - tao), z3.RealVal(0), ctx['u0'].f(c)))))
+        # already off for tao < min_downtime steps: the first min_downtime - tao steps (as far as the horizon reaches) stay off.  Variables
+        # outside the ON block keep their bound -- or are closed too when the remaining downtime exceeds the horizon (the plant is then off
+        # throughout, so absent start / shutdown flags are implied; the pinned code does that by letting the slice run on)
+        onb = z3.And(c >= on, c < on + T)
+        yield ('C06.mindown.initial', z3.ForAll([c], z3.Implies(cr, z3.If(onb,
+            lift(u.f(c)) == z3.If(z3.And(forced, c < on + md - tao), z3.RealVal(0), ctx['u0'].f(c)),
+            z3.Or(lift(u.f(c)) == ctx['u0'].f(c), z3.And(forced, md - tao > T, lift(u.f(c)) == 0))))))
         yield ('C06.mindown.lower_untouched', z3.ForAll([c], z3.Implies(cr, lift(l.f(c)) == ctx['l0'].f(c))))
 
 
@@ -401,7 +409,7 @@ class BoolVariables(Contract):
         op = Obj('OptimProblem', A=Mat(m0, n0, lambda r, c: af(lift(r), lift(c))), l=l0, u=u0, mapping=mapping)
         rI = H.int_arr('rI', T)
         self_obj = Obj('CHPAsset', name=nm, timegrid=Obj('Timegrid', restricted=Obj('Timegrid', T=T, I=rI)))
-        return dict(self_obj=self_obj, op=op, n0=n0, m0=m0, T=T, af=af, l0=l0, u0=u0, rI=rI, idx=idx, ts=ts, var=var,
+        return dict(self_obj=self_obj, op=op, n0=n0, m0=m0, T=T, af=af, l0=l0.copy(), u0=u0.copy(), rI=rI, idx=idx, ts=ts, var=var,
                     args=[op, case['on'], case['start'], case['shutdown']])
 
     def post(self, H, case, outcome, I, ctx):
